@@ -416,3 +416,43 @@ func VerifC08_rerender() {
 	fresh, err3 := Wrap(t.Table).Render()
 	vfAssert(vfAnd(err3 == nil, fresh == out), "rerender-equals-fresh-wrapper")
 }
+
+// VerifC08_lookalikes: texts that already look like the renderer's own escapes (character references
+// for the pipe and the newline, an entity-encoded ampersand in front of one) decode back to themselves.
+func VerifC08_lookalikes() {
+	texts := []string{"&#x7c;", "&#x0a;", "&amp;#x7c;", "a&#124;b", "&amp;amp;#x0a;", "\\|", "&#x7C;", "&amp;"}
+	s := texts[vfChoice("text", len(texts))]
+	t := New()
+	if vfChoice("in-header", 2) == 1 {
+		t.AddHeaders(s, "h")
+		t.AddRowItems("x", "y")
+	} else {
+		t.AddHeaders("g", "h")
+		t.AddRowItems(s, "y")
+	}
+	out, err := t.Render()
+	vfAssert(err == nil, "render-ok")
+	if err != nil {
+		return
+	}
+	lines, ok := vfSplitLines(out)
+	vfAssert(ok, "newline-terminated")
+	vfAssert(len(lines) == 3, "header-delimiter-and-one-line-per-row")
+	if len(lines) != 3 {
+		return
+	}
+	found := false
+	for li, line := range lines {
+		fields := vfSplitPipes(line)
+		vfAssert(len(fields) == 4, "one-more-unescaped-pipe-than-columns")
+		if len(fields) != 4 || li == 1 {
+			continue
+		}
+		dec, dok := vfDecode(fields[1])
+		vfAssert(dok, "no-raw-markup-from-content")
+		if dok && vfTrim(dec) == s {
+			found = true
+		}
+	}
+	vfAssert(found, "cell-decodes-to-text")
+}
